@@ -20,7 +20,7 @@ from gens import basic as G
 from vlib import shrink_list
 
 HOSTS = ["punch", "print", "rates", "calc"]
-FUEL = 150000
+FUEL = 20000
 TIMEOUT = 20
 MAX_PUNCH = 4000          # programs that punch more cells than this are not sent to the real engine
 
